@@ -227,6 +227,9 @@ func configs(tier string) []config {
 		{"wrap", []int64{0, 8 * sec, 56 * sec, 64*sec + 500*ms}, []int64{0, 64 * sec, 70 * sec}},
 		// between the largest encodable offset (0x1FFD/1024 s) and 8 s everything is "too large" (0x1FFE)
 		{"sat8", []int64{0, 7999*ms + 500_000, 8*sec - 1, 8 * sec}, []int64{0, 1}},
+		// an arrival clock that steps backwards between packets (a wall clock that was set back): every packet
+		// keeps the arrival time it was recorded with
+		{"back", []int64{0, 500 * ms, -400 * ms}, []int64{0, 250 * ms}},
 	}
 	for _, p := range profiles {
 		out = append(out, config{Name: "A-" + p.name, Mode: modeRecorder, Starts: []int64{65534},
